@@ -23,7 +23,7 @@ def long_bodies(spec, s, g, rng):
 
 
 def run(ctx, out):
-    spec = S.load_spec()
+    spec = S.load_spec(plus=ctx.schema)
     rng = ctx.rng
     thorough = ctx.search_tier == "thorough"
     g = V.Gen(spec, rng)
@@ -143,9 +143,37 @@ def run(ctx, out):
         if r != w:
             out.oracle_failures.append({"op": o[:400], "observed": r[:400], "expected": w[:400], "key": o[:200],
                                         "what": "an acknowledgement carrying a body is not consumed as ONE packet: its body is taken for a reply (or the exchange fails)"})
+    # at the packet reader: a reply delivered in pieces with long silences (31 s, 61 s) at a cut inside the header, the length or the
+    # body is still dispatched on ITS control field — never on bytes from the middle of the packet
+    rops, plain = [], []
+    for e in enums:
+        for v in e["variants"]:
+            sv = spec["by_name"][v["ty"]]
+            for _ in range(2):
+                try:
+                    b = R.encode(spec, sv, g.struct(sv, rng.choice([0.0, 0.5])))
+                except R.NotRepresentable:
+                    continue
+                if len(b) < 4 or len(b) > 300:
+                    continue
+                for cutp in sorted({1, 2, 3, min(4, len(b) - 1), len(b) // 2, len(b) - 1}):
+                    for pause in (31, 61):
+                        rops.append(f"read@{pause} {e['name']} {C.hexs(b[:cutp])}|{C.hexs(b[cutp:])}")
+                        plain.append(f"read {e['name']} {C.hexs(b)}")
+    rimpl, rmodel = ctx.pair(rops)
+    pimpl = ctx.harness(plain)
+    out.compare("read(pauses)", rops, rimpl, rmodel)
+    out.evaluations += len(rops) * 2
+    for o, r, w in zip(rops, rimpl, pimpl):
+        out.count("reader-with-silences")
+        out.nontrivial.add(o)
+        if r != w:
+            out.oracle_failures.append({"op": o[:300], "observed": r[:300], "expected": w[:300], "key": o[:200],
+                                        "what": "a reply delivered in two pieces with a long silence in between is not dispatched like the same reply delivered at once"})
     out.exhaustive = True
     out.rule = ("all reply enums x all 65,536 (class, instr) pairs with an empty body and as a bare two-byte input without length byte; for control fields inside the reply set also valid bodies of every variant of the enum and random bodies "
                 "(thorough: a valid body for every pair); inputs shorter than two bytes. Oracle: outside the reply set => error; inside => identical to the variant type's own zvt_deserialize. "
                 "At the exchange level, for every sequence: an acknowledgement 80 00 whose body is a complete valid reply packet (short and extended length form) followed by the real replies — the body never surfaces as a reply. "
+                "At the packet reader: two canonical packets per variant, cut at 6 positions, 31 s / 61 s of silence at the cut: same outcome as delivered at once. "
                 "non-trivial = ops whose control field is in the reply set")
     out.samples = [ops[10], ops[1551], {"op": dec_ops[3][:120], "impl": dec_impl[3][:200]}]
